@@ -3,6 +3,7 @@ package main
 // Calls: builtins, conversions, library models, contract application, closure inlining.
 
 import (
+	"strconv"
 	"fmt"
 	"golang.org/x/tools/go/packages"
 	"go/ast"
@@ -185,6 +186,18 @@ func (u *Unit) call(st *State, x *ast.CallExpr) *Val {
 	if sig != nil {
 		args = u.evalArgs(st, x, sig)
 	}
+	// `pureparam p`: a function-typed parameter whose calls are side-effect free and whose result is a function of the
+	// function value and the arguments for the duration of this call: fnapp(value, args)
+	if id, ok := ast.Unparen(x.Fun).(*ast.Ident); ok && u.ct != nil && sig != nil && sig.Results().Len() == 1 {
+		for _, pn := range strings.Fields(u.ct.Flags["pureparam"]) {
+			if pn == id.Name {
+				if _, isParam := u.info.Uses[id].(*types.Var); isParam {
+					u.trusted["pureparam: calls of parameter "+id.Name+" of "+u.name+" have no side effects and return fnapp(value, args) (callers pass literals verified `pureresult`; that nothing the literal reads changes during the call is not checked)"] = true
+					return u.fnappVal(st, fv, args, sig.Results().At(0).Type())
+				}
+			}
+		}
+	}
 	// functype contract by the named type of the function value
 	if ft := u.funcTypeName(x.Fun); ft == "context.CancelFunc" {
 		u.trusted["pure: context.CancelFunc values"] = true
@@ -200,6 +213,89 @@ func (u *Unit) call(st *State, x *ast.CallExpr) *Val {
 	u.note("call of function value without functype contract havocs the heap: " + exprString(x.Fun))
 	u.havocAllHeap(st, "call of function value "+exprString(x.Fun))
 	return u.callResult(st, resT, "fv")
+}
+
+// litContract: the contract block of a function literal directly nested in this unit's body (key <unit>$<n>).
+func (u *Unit) litContract(x *ast.FuncLit) *Contract {
+	if u.body == nil {
+		return nil
+	}
+	n, found := 0, 0
+	ast.Inspect(u.body, func(nd ast.Node) bool {
+		if found != 0 {
+			return false
+		}
+		if fl, ok := nd.(*ast.FuncLit); ok {
+			n++
+			if fl == x {
+				found = n
+			}
+			return false
+		}
+		return true
+	})
+	if found == 0 {
+		return nil
+	}
+	return u.eng.cs.Funcs[u.key+"$"+strconv.Itoa(found)]
+}
+
+// assumePureResult: a literal whose contract is flagged `pureresult` and (separately verified) ensures `res == E`:
+// where the closure value cv is created, fnapp(cv, params) == E(params) for all parameter values, E read in the state
+// of creation.
+func (u *Unit) assumePureResult(st *State, x *ast.FuncLit, cv *Val) {
+	ct := u.litContract(x)
+	if ct == nil || ct.Flags["pureresult"] == "" {
+		return
+	}
+	u.usedContracts[ct.Pkg+"."+ct.Key] = true
+	var qv []QVar
+	call := []*SExpr{{Op: "id", Name: "fnapp"}, {Op: "id", Name: "closure$"}}
+	for _, f := range x.Type.Params.List {
+		for _, nm := range f.Names {
+			qv = append(qv, QVar{Name: nm.Name, Type: strings.ReplaceAll(types.TypeString(u.typeOf(f.Type), func(p *types.Package) string { return p.Name() }), "interface {}", "interface{}")})
+			call = append(call, &SExpr{Op: "id", Name: nm.Name})
+		}
+	}
+	env := u.specEnvLocal(st, x.Body.Lbrace, 0)
+	env.what = u.name + " pureresult of literal"
+	env.names["closure$"] = cv
+	for _, en := range ct.Ensures {
+		e := en.E
+		if e.Op != "bin" || e.Name != "==" || e.Args[0].Op != "id" || (e.Args[0].Name != "res" && e.Args[0].Name != "res0") {
+			continue
+		}
+		fa := &SExpr{Op: "forall", QVars: qv, Args: []*SExpr{{Op: "bin", Name: "==", Args: []*SExpr{{Op: "call", Args: call}, e.Args[1]}}}}
+		g, _ := u.evalSpecBool(st, fa, env, true)
+		st.assumeFact(g)
+		u.trusted["pureresult: fnapp("+ct.Key+", args) is the literal's verified result expression, read in the state in which the literal is created"] = true
+	}
+}
+
+// fnappVal: the uninterpreted application fnapp!<sorts>(f, args...) of a function value.
+func (u *Unit) fnappVal(st *State, f *Val, args []*Val, resT types.Type) *Val {
+	sorts := []string{SInt}
+	terms := []string{f.S}
+	for _, a := range args {
+		if isIface(a.T) || kindOf(a.T) == kRef {
+			sorts = append(sorts, SInt)
+			terms = append(terms, a.S)
+		} else {
+			sorts = append(sorts, sortOf(a.T))
+			terms = append(terms, u.scalar(st, a))
+		}
+	}
+	name := "fnapp"
+	for _, s := range sorts[1:] {
+		name += "!" + sanitizeSort(s)
+	}
+	name += "!" + sanitizeSort(sortOf(resT))
+	fn := u.d.fun(name, sorts, sortOf(resT))
+	return u.fromScalar(st, app(fn, terms...), resT)
+}
+
+func sanitizeSort(s string) string {
+	return strings.NewReplacer(" ", "_", "(", "", ")", "").Replace(s)
 }
 
 // funcTypeName finds the named func type of an expression (e.g. core.ProxyFunc), as contract key.
